@@ -232,7 +232,7 @@ Proof.
   assert (KEEP : put_all ic pairs d = Some d' ->
                  In w (attr_get x d) \/ exists kv, In kv ((k, v) :: pairs) /\ qn_eqb x (fst kv) = true /\ w = snd kv).
   { intros H2. destruct (IH _ _ H2 x w I) as [J|[kv [Hk X]]]; [left; exact J | right; exists kv; split; [right; exact Hk | exact X]]. }
-  destruct (negb ic && is_formal_attr k)%bool.
+  destruct (negb (ic && is_prov_name "entity" k) && is_formal_attr k)%bool.
   - destruct (attr_get k d) as [|e0 es]; [exact (ADD H)|]. destruct (py_eq v e0); [exact (KEEP H) | discriminate].
   - exact (ADD H).
 Qed.
@@ -245,7 +245,7 @@ Proof.
   assert (ADD : In w (attr_get x (attr_add k v d))).
   { rewrite attr_get_add. destruct (qn_eqb x k) eqn:E; [|exact I].
     apply ReaddProofs.in_set_add. left. rewrite <- (ReaddProofs.attr_get_eqb d x k E). exact I. }
-  destruct (negb ic && is_formal_attr k)%bool.
+  destruct (negb (ic && is_prov_name "entity" k) && is_formal_attr k)%bool.
   - destruct (attr_get k d) as [|e0 es] eqn:G; [exact (IH _ _ H x w ADD)|].
     destruct (py_eq v e0); [exact (IH _ _ H x w I) | discriminate].
   - exact (IH _ _ H x w ADD).
@@ -266,12 +266,12 @@ Proof.
         - exists v. split; [apply in_or_app; right; left; reflexivity | left; reflexivity]. }
       destruct J as [w [Hw C]]. exists w. split; [exact (put_all_keeps _ _ _ _ H2 k w Hw)|].
       destruct C as [C|C]; [left; exact C | right; left; exact C]. }
-    destruct (negb ic && is_formal_attr k)%bool.
+    destruct (negb (ic && is_prov_name "entity" k) && is_formal_attr k)%bool.
     + destruct (attr_get k d) as [|e0 es] eqn:G; [exact (ADDED _ H)|].
       destruct (py_eq v e0) eqn:P; [|discriminate].
       exists e0. split; [apply (put_all_keeps _ _ _ _ H k e0); rewrite G; left; reflexivity | right; right; exact P].
     + exact (ADDED _ H).
-  - destruct (negb ic && is_formal_attr k)%bool.
+  - destruct (negb (ic && is_prov_name "entity" k) && is_formal_attr k)%bool.
     + destruct (attr_get k d) as [|e0 es]; [exact (IH _ _ H kv I)|]. destruct (py_eq v e0); [exact (IH _ _ H kv I) | discriminate].
     + exact (IH _ _ H kv I).
 Qed.
